@@ -272,7 +272,33 @@ def history(ops):
         new = conn.sent[n:]
         rq = request_obs(new[0]) if len(new) == 1 else ([] if not new else [len(new)])
         evs.append([rq, out])
+    # calls outside the modelled set that carry a transaction both ways (signrawtransaction,
+    # signrawtransactionwithwallet, submitblock): the bytes sent are the object's, the object returned
+    # is the reply's, whatever else the reply says
+    if evs and not carriers_ok(ops):
+        evs[-1] = [[], [2, vals.Err(vals.EXN_CODES['OtherErr'])]]
     return evs
+
+
+def carriers_ok(ops):
+    import binascii
+    txs = [c[1] for c, _r, _h in ops if c and c[0] in (13, 14) and isinstance(c[1], (bytes, bytearray))]
+    a = CTransaction.deserialize(txs[0]) if txs else CTransaction([], [], 0, 2)
+    b_raw = txs[-1] if len(txs) > 1 else binascii.unhexlify('0200000001' + '11' * 32 + '0100000000feffffff0105000000000000000151' + '07000000')
+    try:
+        for name in ('signrawtransaction', 'signrawtransactionwithwallet'):
+            for extra in ('"complete":true', '"complete":false,"errors":[{"txid":"00","error":"x"}]', '"complete":false,"errors":[]'):
+                conn = FakeConnection()
+                p = rpc.Proxy(service_url=URL, connection=conn)
+                conn.mode = 4
+                conn.body = ('{"result":{"hex":"%s",%s},"error":null,"id":1}' % (binascii.hexlify(b_raw).decode(), extra)).encode('ascii')
+                r = getattr(p, name)(a)
+                sent = json.loads(conn.sent[-1])['params'][0] if conn.sent else None
+                if r['tx'].serialize() != b_raw or sent != binascii.hexlify(a.serialize()).decode():
+                    return False
+    except Exception:  # noqa
+        return False
+    return True
 
 
 def float_bits(f):
